@@ -165,7 +165,10 @@ def check_pair(name, on, off):
 
 ODD_TEXTS = ['10 F$="A\x0cB":PRINT F$\n20 REM X\x85Y\n30 DATA P\u2028Q,R\x0bS\n40 READ A$,B$\n',
              '10 PRINT "L\x1cM";"N\x1dO\x1eP"\n20 \' T\u2029U\n',
-             '10 INPUT "WHO\x0c";N$\n20 A$="\x0c"+CHR$(12)\n30 IF A$="\x85" THEN 10\n']
+             '10 INPUT "WHO\x0c";N$\n20 A$="\x0c"+CHR$(12)\n30 IF A$="\x85" THEN 10\n',
+             # the library's size tag spelled inside user literals, alone and followed by more literals on the same line
+             '10 PRINT "TYPE: STRING<<>>";"!"\n20 A$=": string<<>>"+"X":B$="Q"\n30 DATA ": STRING<<>>","Z",": STRING<<>>"\n40 READ C$,D$\n50 PLAY "C":HDRAW "U1"\n',
+             '10 B$="X:STRING<<>>":PRINT B$;"A";"B"\n20 REM "\n30 A=INSTR(1,B$,": STRING<<>>"):C$=STRING$(3,"Q")\n']
 
 
 def program_text(case):
